@@ -149,7 +149,7 @@ def gen_jobs(rng, thorough):
                     cid += len(grp)
                     jobs.append({"via": "kernel", "thetas": grp, "bins": b, "ids": ids, "seed": cid})
     # random larger columns, all routes
-    for _ in range(3000 if thorough else 260):
+    for _ in range(3000 if thorough else 500):
         n = rng.randint(1, 5)
         T2 = rng.randint(3, 8)
         ncol = rng.randint(1, 4)
